@@ -36,6 +36,12 @@ CHECKS = {
         "Absence only up to sampling. Wedges are wall-clock based (20 s per case, re-confirmed in a fresh process). The terminal protocol of src/term/mod.rs is assumed; the real terminal (readline, signals, files) is emulated.",
         "6 C03",
     ),
+    "C04": (
+        "model-free differential testing over proptest-generated edit histories: the history-laden interpreter vs a fresh interpreter fed get_listing(); metamorphic clause that CONT/RETURN/NEXT/FNx cannot resume into an edited program; invariant that non-editing direct statements leave the listing unchanged",
+        "Exploration of edit histories (insert/replace/delete/bare numbers/DELETE ranges/RENUM/NEW/load, partial and interrupted runs, direct statements) with a differential oracle: RUN or RUN n after the history must equal the same command in a fresh interpreter holding the listing, transcript and final variables; after an effective edit following a stopped run nothing of the old execution may run (TRON shows any executed line).",
+        "Same implementation on both sides: finds history dependence (stale compile, stale frames), not errors common to both. 'Effective edit' is decided by comparing get_listing() before and after.",
+        "6 C04",
+    ),
     "C05": (
         "bounded-exhaustive enumeration of short strings over four lexical alphabets x six contexts + proptest random long lines, round-trip oracle (list, re-enter, list) on number / column-free AST / text / literals, via Line, Listing::load_str and the runtime's LIST",
         "Exploration with a round-trip oracle. The small-scope part is complete: every string of up to k symbols of each alphabet in each context (1.1 million lines per quick run, k up to 6 in thorough) is listed and re-entered; the lexer's scanners are driven through every short combination of digits, exponent letters, suffixes, radix prefixes, relational characters, quotes, remark markers and keyword letters. Long random lines (soup, mutated/re-spelled snippets, arbitrary UTF-8) sample the rest.",
